@@ -146,7 +146,9 @@ thread_local! {
 /// allow `per_step * (events + 1) * (machines + 1)` words (at most `cap`) until the next call of `budget`
 pub fn budget(events: usize, machines: usize) {
     DRAWS.with(|d| d.set(0));
-    LIMIT.with(|l| l.set((2000u64 * (events as u64 + 1) * (machines as u64 + 1)).min(200_000)));
+    let em = (events as u64 + 1) * (machines as u64 + 1);
+    // deep recursion costs stack: keep the budget far below what a 1 GiB stack holds (a few KiB per level)
+    LIMIT.with(|l| l.set((2000 * em).min((40 * em).max(20_000))));
 }
 fn tick() {
     let n = DRAWS.with(|d| {
